@@ -11,69 +11,103 @@ from .world import ScalarOutOfRange  # noqa
 from .world import lookup, same_syms, seq_eq
 
 META = dict(assumptions=[
-    "randomness cannot be quantified over; the decided statement is its deterministic core: every emitted blob's GCM nonce, content-encryption key and key-identifier nonce are "
-    "each the value of an RNG draw (os.urandom / AESGCM.generate_key) made during that very call, each draw serves exactly one role, and no draw is shared between calls. "
-    "Pairwise distinctness then follows from the RNG (stated assumption).",
+    "randomness cannot be quantified over; the decided statement is its deterministic core: every emitted blob's GCM nonce, content-encryption key and key-identifier nonce (or "
+    "ephemeral private key) is RNG output - the value of an os.urandom / AESGCM.generate_key draw made at any earlier point of the history, or a contiguous slice of one - and "
+    "the pieces of RNG output used by all blobs and roles of the history are pairwise disjoint. Pairwise distinctness of the values then follows from the RNG (stated "
+    "assumption). When the material is drawn (per call, in batches, from a pool) is NOT constrained; material that is computed rather than drawn (a counter, a hash of a "
+    "draw) is not recognised and would be reported.",
 ])
 P = "C19"
 
 
-def _roles(c, w, blob_bytes, draws):
-    """checks one emitted blob against the draws made during its call; returns the list of conditions"""
+def _locate(value, draws):
+    """(draw index, offset, length) such that value is that contiguous slice of the draw (same solver symbols / same concrete octets), or None"""
+    from symex import values as V
+
+    if not V.is_byteslike(value):
+        return None
+    items = V.seq_items(value)
+    n = len(items)
+    if n == 0:
+        return None
+    for di, d in enumerate(draws):
+        ditems = V.seq_items(d[2])
+        for off in range(0, len(ditems) - n + 1):
+            if same_syms(V.SymBytes(ditems[off : off + n]) if not isinstance(d[2], (bytes, bytearray)) else bytes(d[2])[off : off + n],
+                         value if not isinstance(value, (bytes, bytearray, memoryview)) else bytes(value)):
+                return (di, off, n)
+    return None
+
+
+def _disjoint(used):
+    """pieces of RNG output [(draw, offset, length)] pairwise disjoint"""
+    for i in range(len(used)):
+        for j in range(i + 1, len(used)):
+            a, b = used[i], used[j]
+            if a[0] == b[0] and a[1] < b[1] + b[2] and b[1] < a[1] + a[2]:
+                return False
+    return True
+
+
+def _material(c, w, blob_bytes, public=False):
+    """-> (conditions, pieces of RNG output used by this blob [nonce, cek(, key-identifier nonce)])"""
     b = c.call(_blob.DPAPINGBlob.unpack, blob_bytes)
-    d12 = [d for d in draws if d[1] == 12]
-    d32u = [d for d in draws if d[1] == 32 and d[0] == "urandom"]
-    d32k = [d for d in draws if d[1] == 32 and d[0] == "generate_key"]
-    conds = [len(draws) == 3, len(d12) == 1, len(d32u) == 1, len(d32k) == 1]
-    if not all(conds):
-        return conds
-    conds.append(seq_eq(b.enc_content_parameters, refs.ref_gcm_parameters(d12[0][2])))
-    conds.append(seq_eq(b.key_identifier.key_info, d32u[0][2]))
-    # the wrapped key behind enc_cek is the generate_key draw, and the content was sealed under exactly (that key, that nonce)
+    par = refs.cat(b.enc_content_parameters)
+    conds, used = [], []
+    nonce = par[4:16] if len(par) == 19 else None
+    conds.append(nonce is not None and seq_eq(par, refs.ref_gcm_parameters(nonce)))
+    if nonce is None:
+        return conds + [False], used
     wrec = [r for r in w.wraps if same_syms(r[0][1], b.enc_cek)]
-    conds.append(len(wrec) == 1 and seq_eq(wrec[0][1], d32k[0][2]))
+    conds.append(len(wrec) == 1)
+    if len(wrec) != 1:
+        return conds, used
+    cek = wrec[0][1]
     arec = [r for r in w.aead if same_syms(r[0][2], b.enc_content)]
-    conds.append(len(arec) == 1 and all_of([seq_eq(arec[0][0][0], d32k[0][2]), seq_eq(arec[0][0][1], d12[0][2])]))
-    return conds
+    conds.append(len(arec) == 1 and all_of([seq_eq(arec[0][0][0], cek), seq_eq(arec[0][0][1], nonce)]))
+    vals = [nonce, cek] + ([] if public else [b.key_identifier.key_info])
+    for v in vals:
+        loc = _locate(v, w.draws)
+        conds.append(loc is not None)
+        if loc is not None:
+            used.append(loc)
+    conds.append(len(refs.cat(cek)) == 32)
+    return conds, used
 
 
 @harness(P, per_job=True, params=lambda tier: [dict(ncalls=3, hash_name="SHA512", same=True), dict(ncalls=2, hash_name="SHA1", same=False)] +
          ([dict(ncalls=4, hash_name=h, same=s) for h in ("SHA256", "SHA384") for s in (True, False)] if tier == "thorough" else []), max_steps=3000000,
          bounds="2..3 (quick) / 4 (thorough) consecutive protect calls on one cache with identical or different arguments, nonce mode, one unprotect interleaved after the first call; "
          "clock fixed inside one interval", outside="longer call sequences (each call is the same code from the same cache state class); public-key mode (see C03)",
-         must_reach=("every blob uses draws of its own call, one role each", "no draw shared between calls"))
+         must_reach=("every blob's CEK, nonce and key-identifier nonce are RNG output", "no RNG output is used twice (across calls and roles)"))
 def fresh_draws(c, ncalls, hash_name, same):
     lo, hi = e2e.window(361, 9, 9, -10, -10)
     w = e2e.new_world(c, lo, lo)  # the clock is not the subject here: one fixed instant
     root = c.bytes("root", 64)
     cache = e2e.loaded_cache(c, root, hash_name)
     pts = [c.bytes("pt", 9)] * ncalls if same else [c.bytes(f"pt{i}", 9) for i in range(ncalls)]
-    spans, blobs = [], []
+    conds, used = [], []
     for i in range(ncalls):
-        before = len(w.draws)
         blob = c.call(dpapi_ng.ncrypt_protect_secret, pts[i], e2e.SIDS[0 if same else i % 2], root_key_identifier=e2e.RK, cache=cache)
-        spans.append((before, len(w.draws)))
-        blobs.append(blob)
+        cs, us = _material(c, w, blob)
+        conds += cs
+        used += us
         if i == 0:
             out = c.call(dpapi_ng.ncrypt_unprotect_secret, blob, cache=cache)
-            c.check(all_of([seq_eq(out, pts[0]), len(w.draws) == spans[0][1]]), "unprotect draws no randomness")
-    conds = []
-    for i, blob in enumerate(blobs):
-        conds += _roles(c, w, blob, w.draws[spans[i][0] : spans[i][1]])
-    c.check(all_of([x if isinstance(x, bool) else x for x in conds]), "every blob uses draws of its own call, one role each")
-    names = [id(d[2]) for d in w.draws]
-    c.check(len(set(names)) == len(names) == 3 * ncalls and all(spans[i][1] == spans[i + 1][0] for i in range(ncalls - 1)), "no draw shared between calls")
+            conds.append(seq_eq(out, pts[0]))
+    c.check(all_of(conds), "every blob's CEK, nonce and key-identifier nonce are RNG output")
+    c.check(len(used) == 3 * ncalls and _disjoint(used), "no RNG output is used twice (across calls and roles)")
     return len(w.draws)
 
 
-@harness(P, per_job=True, params=lambda tier: [dict(alg=a, hash_name=h) for a, h in ([("DH", "SHA256"), ("ECDH_P256", "SHA512")] if tier == "quick" else
-                                                                        [("DH", "SHA1"), ("DH", "SHA256"), ("ECDH_P256", "SHA512"), ("ECDH_P384", "SHA384")])],
+@harness(P, per_job=True, params=lambda tier: [dict(alg=a, hash_name=h, rkid=r) for a, h, r in ([("DH", "SHA256", False), ("ECDH_P256", "SHA512", True)] if tier == "quick" else
+                                                                        [("DH", "SHA1", True), ("DH", "SHA256", False), ("ECDH_P256", "SHA512", True), ("ECDH_P256", "SHA256", False), ("ECDH_P384", "SHA384", False)])],
          raises=(ScalarOutOfRange,), max_steps=3000000,
          bounds="public-key mode (DH over a 32-bit group, ECDH P256/P384): 3 consecutive protect calls with identical arguments for a caller who only receives the group public key "
-         "(every call asks the DC stub, which returns the same public-key envelope); each blob's ephemeral public key must be the group element of a private key drawn from the RNG "
-         "during that very call (ceil(private_key_length/8) bytes), CEK and GCM nonce likewise", outside="longer sequences; P521",
-         must_reach=("public-key mode: ephemeral key, CEK and nonce are draws of the call",))
-def fresh_draws_public(c, alg, hash_name):
+         "(the same KeyCache object in every call, with or without an explicit root key id; the DC stub returns the same public-key envelope whenever asked); each blob's ephemeral public key must be the group element of a private key that is an RNG draw "
+         "(ceil(private_key_length/8) bytes) no other blob or role uses, CEK and GCM nonce likewise", outside="longer sequences; P521",
+         must_reach=("public-key mode: ephemeral key, CEK and nonce are RNG output",))
+def fresh_draws_public(c, alg, hash_name, rkid):
     import uuid
 
     from dpapi_ng import _client, _gkdi
@@ -105,31 +139,61 @@ def fresh_draws_public(c, alg, hash_name):
     holder["env"] = refs.ref_group_key_envelope(1, 3, 361, 9, 9, e2e.RK.bytes_le, "SP800_108_CTR_HMAC", refs.ref_kdf_parameters(hash_name), alg, sec_params, priv_bits, publen, "d.t", "f.t", b"", pub)
     cache = dpapi_ng.KeyCache()
     pt = c.bytes("pt", 9)
-    conds = []
-    seen_ids = []
+    conds, used, eph_used = [], [], []
     for i in range(3):
-        before = len(w.draws)
-        blob = c.call(dpapi_ng.ncrypt_protect_secret, pt, e2e.SIDS[0], server="dc", cache=cache)
-        draws = w.draws[before:]
+        blob = c.call(dpapi_ng.ncrypt_protect_secret, pt, e2e.SIDS[0], server="dc", cache=cache, root_key_identifier=e2e.RK if rkid else None)
         b = c.call(_blob.DPAPINGBlob.unpack, blob)
-        eph = [d for d in draws if d[0] == "urandom" and d[1] == nbytes]
-        d12 = [d for d in draws if d[1] == 12]
-        d32k = [d for d in draws if d[0] == "generate_key"]
-        ok = [len(draws) == 3, len(eph) == 1, len(d12) == 1, len(d32k) == 1, holder.get("rpc") == i + 1, b.key_identifier.is_public_key]
-        if all(ok):
-            e = V.int_from_bytes(eph[0][2], "big") if c.symbolic else int.from_bytes(eph[0][2], "big")
+        cs, us = _material(c, w, blob, public=True)
+        conds += cs + [b.key_identifier.is_public_key]
+        used += us
+        # the ephemeral public key is the group element of an RNG draw of ceil(private_key_length/8) octets that no other blob / role uses
+        if alg == "DH":
+            k = c.call(_gkdi.FFCDHKey.unpack, b.key_identifier.key_info)
+        else:
+            k = c.call(_gkdi.ECDHKey.unpack, b.key_identifier.key_info)
+        hit = None
+        for di, d in enumerate(w.draws):
+            if d[0] != "urandom" or d[1] != nbytes or any(u[0] == di for u in used + eph_used):
+                continue
+            e = V.int_from_bytes(d[2], "big") if c.symbolic else int.from_bytes(d[2], "big")
             if alg == "DH":
-                k = c.call(_gkdi.FFCDHKey.unpack, b.key_identifier.key_info)
-                ok.append(k.public_key == w.algebra.pow(prm.generator, e, prm.field_order))
+                same_el = k.public_key == w.algebra.pow(prm.generator, e, prm.field_order)
             else:
-                k = c.call(_gkdi.ECDHKey.unpack, b.key_identifier.key_info)
                 mine = w.algebra._ec_element(cname, ("G", "G"), [e])
-                ok.append(all_of([k.x == mine["x"], k.y == mine["y"]]))
-            ok.append(seq_eq(b.enc_content_parameters, refs.ref_gcm_parameters(d12[0][2])))
-            wrec = [r for r in w.wraps if same_syms(r[0][1], b.enc_cek)]
-            ok.append(len(wrec) == 1 and seq_eq(wrec[0][1], d32k[0][2]))
-        conds += ok
-        seen_ids += [id(d[2]) for d in draws]
-    c.check(all_of([x_ if isinstance(x_, bool) else x_ for x_ in conds]), "public-key mode: ephemeral key, CEK and nonce are draws of the call")
-    c.check(len(set(seen_ids)) == 9, "no draw shared between calls")
+                same_el = all_of([k.x == mine["x"], k.y == mine["y"]])
+            if truth(same_el):
+                hit = (di, 0, nbytes)
+                break
+        conds.append(hit is not None)
+        if hit is not None:
+            eph_used.append(hit)
+    c.check(all_of(conds), "public-key mode: ephemeral key, CEK and nonce are RNG output")
+    c.check(len(used) == 6 and len(eph_used) == 3 and _disjoint(used + eph_used), "no RNG output is used twice (across calls and roles)")
+    return len(w.draws)
+
+
+@harness(P, per_job=True, params=lambda tier: [dict(ncalls=n, hash_name="SHA256") for n in ([34] if tier == "quick" else [34, 130, 400])], max_steps=30000000,
+         bounds="long histories in one process: 34 (quick) / 130 and 400 (thorough) consecutive protect calls on one cache (sync and async alternating, an unprotect after every 7th call), nonce mode, "
+         "clock fixed: every blob's CEK, GCM nonce and key-identifier nonce are RNG output and no piece of RNG output is used twice - whatever pooling, batching or "
+         "memoisation the implementation does across calls", outside="longer histories", must_reach=("long history: every blob's CEK, nonce and key-identifier nonce are RNG output",))
+def many_calls(c, ncalls, hash_name):
+    lo, hi = e2e.window(361, 9, 9, -10, -10)
+    w = e2e.new_world(c, lo, lo)
+    root = c.bytes("root", 64)
+    cache = e2e.loaded_cache(c, root, hash_name)
+    pt = c.bytes("pt", 5)
+    conds, used = [], []
+    for i in range(ncalls):
+        if i % 2 == 0:
+            blob = c.call(dpapi_ng.ncrypt_protect_secret, pt, e2e.SIDS[0], root_key_identifier=e2e.RK, cache=cache)
+        else:
+            blob = c.call_async(dpapi_ng.async_ncrypt_protect_secret, pt, e2e.SIDS[0], root_key_identifier=e2e.RK, cache=cache)
+        cs, us = _material(c, w, blob)
+        conds += cs
+        used += us
+        if i % 7 == 6:
+            out = c.call(dpapi_ng.ncrypt_unprotect_secret, blob, cache=cache)
+            conds.append(seq_eq(out, pt))
+    c.check(all_of(conds), "long history: every blob's CEK, nonce and key-identifier nonce are RNG output")
+    c.check(len(used) == 3 * ncalls and _disjoint(used), "long history: no RNG output is used twice")
     return len(w.draws)
